@@ -85,7 +85,53 @@ func idCase(k int, r int64, v int) *wire.Case {
 		desc["feature_id"] = int64(fid)
 	}
 	c.Desc = desc
+	c.OracleFail = idOracle(k, r, v)
 	return c
+}
+
+var kcode = []int64{8, 16, 32, 48, 64, 80, 96}
+
+// idOracle is the Go-side copy of the property oracle (Coq judgement 2) for id cases; it lets
+// the check name a concrete failing input even when the Coq model no longer builds.
+func idOracle(k int, r int64, v int) string {
+	nr, nv := r, int64(v)
+	if k == 0 {
+		nr = 0
+	}
+	if !isElem(k) {
+		nv = 0
+	}
+	want := kcode[k]<<56 + nr<<16 + nv
+	oid := objectID(k, r, v)
+	if int64(oid) != want {
+		return fmt.Sprintf("object id %d, layout says %d", int64(oid), want)
+	}
+	if safeType(oid.Type) != string(kinds[k]) || oid.Ref() != nr || int64(oid.Version()) != nv {
+		return fmt.Sprintf("object id decodes to %s/%d:%d", safeType(oid.Type), oid.Ref(), oid.Version())
+	}
+	if p, err := osm.ParseObjectID(oid.String()); err != nil || p != oid {
+		return fmt.Sprintf("ParseObjectID(%q) = %d, %v", oid.String(), int64(p), err)
+	}
+	if isElem(k) {
+		eid := elementID(k, r, v)
+		fid := featureID(k, r)
+		if int64(eid) != want || int64(fid) != kcode[k]<<56+r<<16 {
+			return fmt.Sprintf("element id %d / feature id %d, layout says %d / %d", int64(eid), int64(fid), want, kcode[k]<<56+r<<16)
+		}
+		if safeType(eid.Type) != string(kinds[k]) || eid.Ref() != r || eid.Version() != v || eid.FeatureID() != fid {
+			return fmt.Sprintf("element id decodes to %s/%d:%d feature %d", safeType(eid.Type), eid.Ref(), eid.Version(), int64(eid.FeatureID()))
+		}
+		if string(fid.Type()) != string(kinds[k]) || fid.Ref() != r {
+			return fmt.Sprintf("feature id decodes to %s/%d", fid.Type(), fid.Ref())
+		}
+		if p, err := osm.ParseElementID(eid.String()); err != nil || p != eid {
+			return fmt.Sprintf("ParseElementID(%q) = %d, %v", eid.String(), int64(p), err)
+		}
+		if p, err := osm.ParseFeatureID(fid.String()); err != nil || p != fid {
+			return fmt.Sprintf("ParseFeatureID(%q) = %d, %v", fid.String(), int64(p), err)
+		}
+	}
+	return ""
 }
 
 type triple struct {
@@ -147,6 +193,28 @@ func sortCase(which int, ts []triple) *wire.Case {
 		}
 	}
 	c.Ints(out)
+	for i := 1; i < len(out); i++ {
+		if out[i-1] > out[i] { // spec order on in-range ids = integer order of kind*2^56+ref*2^16+version
+			c.OracleFail = fmt.Sprintf("output not ordered by (type, id, version) at position %d", i)
+		}
+	}
+	{
+		want := make([]int64, len(ts))
+		for i, t := range ts {
+			v := int64(t.v)
+			if which == 1 {
+				v = 0
+			}
+			want[i] = kcode[t.k]<<56 + t.r<<16 + v
+		}
+		sort.Slice(want, func(i, j int) bool { return want[i] < want[j] })
+		for i := range want {
+			if i >= len(out) || want[i] != out[i] {
+				c.OracleFail = "sorted output is not the sorted permutation of the input ids"
+				break
+			}
+		}
+	}
 	c.Desc = map[string]interface{}{"sort": []string{"ElementIDs", "FeatureIDs", "Elements"}[which], "input": in, "observed": out}
 	return c
 }
